@@ -4,6 +4,9 @@
 //! [dashmap]: https://docs.rs/dashmap/*/dashmap/struct.DashMap.html
 
 mod base_cache;
+// Verification hook (constants for the oracles).
+#[cfg(mini_moka_verif)]
+pub(crate) use base_cache::VERIF_EVICTION_BATCH_SIZE;
 mod builder;
 mod cache;
 mod iter;
